@@ -223,10 +223,12 @@ class PropertyDescriptorRelation(PredicateClassRelation):
         Infer transitive relations outgoing from the source.
         """
         for nxt_relation in self.target_outgoing_relations_with_same_descriptor_type:
+            # the new relation starts at the source: it is kept in the field of the source, which may have another
+            # name than the field of the target
             self.__class__(
                 self.source,
                 nxt_relation.target,
-                nxt_relation.wrapped_field,
+                self.wrapped_field,
                 inferred=True,
             ).add_to_graph()
 
